@@ -137,8 +137,19 @@ class HarnessError(Exception):
     pass
 
 
+def die_with_parent():
+    """Linux: have the kernel kill this process when its parent goes away (no orphaned workers or forked
+    incarnations spinning on after a check was killed or gave up)."""
+    try:
+        import ctypes
+        ctypes.CDLL("libc.so.6", use_errno=True).prctl(1, signal.SIGKILL)      # PR_SET_PDEATHSIG
+    except Exception:       # noqa
+        pass
+
+
 def _init_worker():
     signal.signal(signal.SIGINT, signal.SIG_IGN)
+    die_with_parent()
 
 
 class HardTimeout(BaseException):
